@@ -222,6 +222,9 @@ pub fn c11(ctx: &mut Ctx) {
         let sp = super::bytes::dense_chain_space(nd);
         ctx.bound("chains of every length", format!("datagrams of every tile count 1..={} x 4 tails (exact, last length field + 1, a stray byte, a header claiming more than is left)", nd));
         sp.run(ctx, &sp.name, 0, |s, l| c11_case(s, l));
+        let sp = super::bytes::dense_total_space(nd);
+        ctx.bound("datagrams of every total size", format!("three unremarkable tiles whose sizes sum to every total 24..={} bytes, exactly tiled and with a stray byte", nd * 4));
+        sp.run(ctx, &sp.name, 0, |s, l| c11_case(s, l));
     }
     // very long runs of one header-only packet (65 536, 65 537, 200 000 tiles: where a 16-bit tile counter wraps or a
     // per-tile recursion runs out of stack) and single-tile SDES giants
@@ -623,6 +626,21 @@ pub fn c14(ctx: &mut Ctx) {
         let sp = targets::every_member_count_space(max);
         let get = &sp.get;
         ctx.bound("every member count", format!("compounds of every member count 1..={}: flat, flat with the last member padded, nested and followed by a BYE", max));
+        ctx.run_space(&sp.name, sp.len, |idx, l| {
+            if let Target::Compound(ms) = get(idx) {
+                match guard::catch(|| c14_case(&ms, l)) {
+                    Ok(()) => {}
+                    Err(pi) => l.subject_panic("compound", &pi, || format!("{} members", ms.len())),
+                }
+            }
+        });
+    }
+    // every total size
+    {
+        let max = ctx.tier.pick(2304usize, 8192);
+        let sp = targets::every_total_size_space(max);
+        let get = &sp.get;
+        ctx.bound("every total size", format!("compounds of three unremarkable members whose sizes sum to every total 28..={} bytes, flat and with two of them nested", max * 4));
         ctx.run_space(&sp.name, sp.len, |idx, l| {
             if let Target::Compound(ms) = get(idx) {
                 match guard::catch(|| c14_case(&ms, l)) {
